@@ -274,6 +274,20 @@ def gen_c15(r, n, tier):
             else:
                 cpath = b":".join(reversed(entries))
             t["env"] = [(b"OTHER", b"1"), (b"PATH", cpath)] + ([(b"PATH", cpath + b":/usr/bin")] if r.chance(1, 3) else [])
+        if shape == "search" and r.chance(1, 3) and len(cmd) <= 255:
+            # launched twice in one process, the parent's PATH changed in between: a second directory that holds the
+            # program, the entries reversed, unset, or a directory without it
+            lay["mkdirs"].append("second")
+            how = r.choice(["second-has-it", "reversed", "unset", "second-empty"])
+            if how == "second-has-it":
+                lay["symlinks"][os.fsencode(os.path.join("second", os.fsdecode(cmd)))] = STUB
+                t["path2"] = b"$WD/second:" + t["path"]
+            elif how == "reversed":
+                t["path2"] = b":".join(reversed(entries))
+            elif how == "unset":
+                t["path2"] = None
+            else:
+                t["path2"] = b"$WD/second"
         if shape == "slash":
             # a name with a slash: used as given, relative to the child's cwd, whatever PATH offers
             lay["mkdirs"].append("sl")
@@ -466,6 +480,11 @@ def scenario_of(t):
         if req["cwd"] is not None:
             spec.append("cwd " + e2.hexs(req["cwd"]))
         spec.append("path " + ("unset" if req["path"] is None else e2.hexs(req["path"])))
+        if "path2" in t:
+            # the same launch again in the same process after the parent's PATH has changed
+            p2 = res(t["path2"]) if t["path2"] is not None else None
+            s["req2"] = dict(req, path=p2)
+            spec.append("relaunch_path " + ("unset" if p2 is None else e2.hexs(p2)))
         if t["uid"] is not None:
             spec.append("setuid %d" % t["uid"])
         if t["gid"] is not None:
@@ -520,6 +539,8 @@ def observe(s):
     o = {"forked": False, "chdir": None, "execs": [], "allocs": [], "child_pid": None, "chdir_ret": None, "order": []}
     plog = s["logs"].get(s["parent_pid"], [])
     for ln in plog:
+        if ln.startswith("mark relaunch"):
+            break                      # what follows belongs to the second launch of the same process
         if ln.startswith("fork = "):
             pid = int(ln.split("=")[1])
             if pid > 0:
@@ -828,6 +849,30 @@ def monitors(pid, s):
                 bad.append("paths tried %s, expected every candidate in order %s" % (short(tried), short(cands)))
             if zombies > 0:
                 bad.append("a zombie was left after the failed lookup")
+        if s.get("req2") is not None:
+            # the second launch of the same process: resolved against the parent's PATH as it is NOW
+            plog = s["logs"].get(s["parent_pid"], [])
+            ri = next((i for i, l in enumerate(plog) if l.startswith("mark relaunch")), None)
+            pid2 = None
+            if ri is not None:
+                for ln in plog[ri:]:
+                    if ln.startswith("fork = ") and int(ln.split("=")[1]) > 0:
+                        pid2 = int(ln.split("=")[1])
+                        break
+            tried2 = []
+            for ln in s["logs"].get(pid2, []) if pid2 else []:
+                p_ = ln.split(" ")
+                if p_[0] == "exec":
+                    tried2.append(e2.unhex(p_[1]))
+            res2 = next((ln[8:] for ln in s["out"] if ln.startswith("result2 ")), "?")
+            cands2 = py_candidates(s["req2"])
+            fs2 = s.get("fs2", {})
+            ok2 = next((c for c in cands2 if fs2.get(c, ENOENT) is None), None)
+            want2 = cands2[:cands2.index(ok2) + 1] if ok2 is not None else cands2
+            if tried2 != want2:
+                bad.append("second launch after the parent's PATH changed: paths tried %s, expected %s (the parent's PATH at the time of the call)" % (short(tried2), short(want2)))
+            if (ok2 is not None) != (res2 == "ok"):
+                bad.append("second launch after the parent's PATH changed: result %s, %s" % (res2, "a startable candidate exists" if ok2 is not None else "nothing can be started"))
 
     elif pid == "C17":
         if o["allocs"]:
@@ -983,6 +1028,8 @@ def run(chk, tier, pid, explicit=None):
             spec = fn(wd)
             cands = py_candidates(s["req"]) or []
             s["fs"] = fs_oracle(s, [c for c in cands if b"\0" not in c])
+            if s.get("req2"):
+                s["fs2"] = fs_oracle(s, [c for c in (py_candidates(s["req2"]) or []) if b"\0" not in c])
             return spec
         s["specfn"] = wrapped
     e2.run_scenarios(scns, pid)
